@@ -179,6 +179,9 @@ Proof.
     clear. induction (Z.to_nat n) as [|k IH]; [reflexivity|]. cbn. exact IH. }
   assert (Hu : u64 (n * slen s) = n * slen s).
   { unfold u64. apply Z.mod_small. unfold LUA_MAXSIZE, two64 in *. nia. }
+  destruct (Z.ltb_spec ((two64 - 1) / n) (slen s)) as [Hbig|_].
+  { exfalso. assert (slen s * n <= two64 - 1) by (unfold LUA_MAXSIZE, two64 in *; nia).
+    pose proof (Z.div_le_lower_bound (two64 - 1) n (slen s) ltac:(lia) ltac:(lia)). lia. }
   rewrite Hu. unfold nl_create.
   assert (Hlim : LUA_MAXSIZE < ALLOC_LIMIT) by (vm_compute; reflexivity).
   unfold u64. unfold LUA_MAXSIZE, two64 in *.
@@ -208,6 +211,10 @@ Proof.
     clear. f_equal. induction (Z.to_nat n) as [|k IH]; [reflexivity|].
     destruct k; [reflexivity|]. exact IH. }
   assert (Hge : slen sep < n * (slen s + slen sep)) by nia.
+  destruct (Z.leb_spec (slen s) (slen s + slen sep)) as [_|?]; [|lia].
+  destruct (Z.leb_spec (slen s + slen sep) ((two64 - 1) / n)) as [_|Hbig]; cbn [andb negb].
+  2:{ exfalso. assert ((slen s + slen sep) * n <= two64 - 1) by (unfold LUA_MAXSIZE, two64 in *; nia).
+      pose proof (Z.div_le_lower_bound (two64 - 1) n (slen s + slen sep) ltac:(lia) ltac:(lia)). lia. }
   set (P := n * (slen s + slen sep)) in *.
   assert (Hlim : LUA_MAXSIZE < ALLOC_LIMIT) by (vm_compute; reflexivity).
   rewrite (u64_small P) by (unfold LUA_MAXSIZE, two64 in *; lia).
@@ -220,25 +227,31 @@ Proof.
   rewrite Z.ltb_irrefl. reflexivity.
 Qed.
 
-(* memory safety of rep: the full statement is false *)
+(* memory safety of rep (after b10c461).  The full statement is still false at exactly one size:
+   n * s.size = 2^64 - 1 passes the new assert, and string.create(2^64-1) asks the allocator for
+   size + 1 = 0 bytes, gets nilptr without a panic and writes the terminator through it *)
 Definition rep_memory_safe : Prop :=
   forall s n, in_i64 n -> slen s <= maxint -> nl_rep s n <> Unsafe.
 
 Lemma rep_memory_safe_refuted : ~ rep_memory_safe.
 Proof.
-  intros H. apply (H [97; 98; 99; 100] 4611686018427387905); vm_compute; intuition congruence.
+  intros H. apply (H [97; 98; 99] 6148914691236517205); vm_compute; intuition congruence.
 Qed.
 
 (* the witness is an input on which reference Lua raises "resulting string too large" *)
-Lemma rep_refuted_witness_lua_errs : lua_rep [97; 98; 99; 100] 4611686018427387905 [] = LErr.
+Lemma rep_refuted_witness_lua_errs : lua_rep [97; 98; 99] 6148914691236517205 [] = LErr.
 Proof. vm_compute. reflexivity. Qed.
 
-Lemma rep_memory_safe_partial s n : 0 <= n * slen s < two64 - 1 -> nl_rep s n <> Unsafe.
+(* every other size is safe: the multiplication can no longer wrap *)
+Lemma rep_memory_safe_partial s n : 0 <= n -> n * slen s <> two64 - 1 -> nl_rep s n <> Unsafe.
 Proof.
-  intros H. unfold nl_rep.
-  destruct (n <=? 0); [discriminate|]. destruct (n =? 1); [discriminate|].
+  intros Hn Hne. pose proof (slen_nonneg s) as H0. unfold nl_rep.
+  destruct (Z.leb_spec n 0); [discriminate|]. destruct (n =? 1); [discriminate|].
   destruct (slen s =? 0); [discriminate|].
-  assert (Hu : u64 (n * slen s) = n * slen s) by (unfold u64; apply Z.mod_small; lia).
+  destruct (Z.ltb_spec ((two64 - 1) / n) (slen s)) as [|Hle]; [discriminate|].
+  assert (Hprod : n * slen s <= two64 - 1).
+  { pose proof (Z.mul_div_le (two64 - 1) n ltac:(lia)). nia. }
+  assert (Hu : u64 (n * slen s) = n * slen s) by (unfold u64; apply Z.mod_small; nia).
   rewrite Hu. unfold nl_create.
   destruct (n * slen s =? 0); [discriminate|].
   assert (Hu2 : u64 (n * slen s + 1) = n * slen s + 1) by (unfold u64; apply Z.mod_small; lia).
@@ -335,29 +348,23 @@ Proof. unfold nl_max2. cbn. zb; lia. Qed.
 Lemma min2_eq_lua x y : nl_min2 x y = lua_min_l x [y].
 Proof. unfold nl_min2. cbn. zb; lia. Qed.
 
-(* fmod on integers: wherever the port returns, it returns Lua's value; it is not always safe *)
-Lemma fmod_eq_lua_partial x y v : in_i64 x -> in_i64 y ->
-  nl_fmod x y = Val v -> lua_fmod x y = LVal v.
+(* fmod on integers (after 5a6ed3d): the port returns Lua's value wherever Lua returns one, stops
+   exactly where Lua raises "zero", and never reaches C's undefined  x % y *)
+Lemma fmod_eq_lua x y : in_i64 x -> in_i64 y ->
+  match lua_fmod x y with
+  | LVal v => nl_fmod x y = Val v
+  | LErr => nl_fmod x y = Trap
+  end.
 Proof.
-  intros Hx Hy. unfold nl_fmod, lua_fmod, u64. unf64.
-  destruct (Z.eqb_spec y 0); [discriminate|].
-  assert (Hv : (if (x =? -9223372036854775808) && (y =? -1) then Unsafe else Val (Z.rem x y)) = Val v ->
-               Z.rem x y = v /\ ~ (x = -9223372036854775808 /\ y = -1)).
-  { destruct (Z.eqb_spec x (-9223372036854775808)); destruct (Z.eqb_spec y (-1)); cbn [andb];
-      try discriminate; intros [= <-]; split; auto; lia. }
-  intros H. apply Hv in H. destruct H as [<- Hne].
-  destruct (Z.leb_spec (y mod 18446744073709551616 + 1) 1) as [Hd|Hd]; [|reflexivity].
-  assert (y = -1) by lia. subst y. f_equal.
-  change (-1) with (- (1)). rewrite Z.rem_opp_r' . symmetry. apply Z.rem_1_r.
+  intros Hx Hy. unfold nl_fmod, lua_fmod, c_rem, u64. unf64.
+  destruct (Z.eqb_spec y 0) as [->|Hy0]; [reflexivity|].
+  destruct (Z.eqb_spec y (-1)) as [->|Hy1]; [reflexivity|].
+  destruct (Z.leb_spec ((y mod 18446744073709551616 + 1) mod 18446744073709551616) 1); [lia|].
+  rewrite andb_false_r. reflexivity.
 Qed.
 
-Definition fmod_total : Prop :=
-  forall x y, in_i64 x -> in_i64 y -> forall v, lua_fmod x y = LVal v -> nl_fmod x y = Val v.
-
-Lemma fmod_total_refuted : ~ fmod_total.
+Lemma fmod_never_unsafe x y : nl_fmod x y <> Unsafe.
 Proof.
-  intros H. specialize (H minint (-1)).
-  assert (nl_fmod minint (-1) = Val 0) as E.
-  { apply H; vm_compute; intuition congruence. }
-  vm_compute in E. discriminate.
+  unfold nl_fmod, c_rem. destruct (Z.eqb_spec y 0); [discriminate|].
+  destruct (Z.eqb_spec y (-1)); [discriminate|]. rewrite andb_false_r. discriminate.
 Qed.
